@@ -352,7 +352,7 @@ def main():
                 else:
                     rep.count("dup_violation")
         # minimise + confirm new violations (sequentially; they are rare)
-        for k_min, (i, sig, what, var) in enumerate(to_min):
+        for k_min, (i, sig, what, var) in enumerate(to_min[:12]):
             w = gen_world(args.seed, i)
             if k_min < 4:
                 mw, mvars = shrink(w, args.seed, i, var, sig, os.path.join(batch, "shrink"), budget=45)
